@@ -33,9 +33,11 @@ def stored_types(eng):
         for ex in r['exits']:
             for e in ex['effects']:
                 res = e[4]
-                if e[0] == 'read' and isinstance(res, tuple) and len(res) > 5 and isinstance(res[5], tuple) and res[5]:
-                    for ty in res[5]:
-                        if ty in acc: out.setdefault(e[1], {}).setdefault(root, set()).add(ty)
+                tys = ()
+                if e[0] == 'read' and isinstance(res, tuple) and len(res) > 5 and isinstance(res[5], tuple): tys = res[5]
+                elif e[0] == 'read' and isinstance(res, tuple) and res and res[0] == 'srange' and len(res) > 3 and isinstance(res[3], tuple): tys = res[3]
+                for ty in tys:
+                    if ty in acc: out.setdefault(e[1], {}).setdefault(root, set()).add(ty)
     return out
 
 def schema_of(eng, ty, seen=()):
